@@ -426,6 +426,15 @@ func NewManager(
 	return m, nil
 }
 
+// sendErr reports an unrecoverable error to the node. The node reads a single error and then
+// cancels the context, so a second failing loop must not wait on the full channel for ever.
+func sendErr(ctx context.Context, errCh chan<- error, err error) {
+	select {
+	case errCh <- err:
+	case <-ctx.Done():
+	}
+}
+
 // PendingHeaders returns the pending headers.
 func (m *Manager) PendingHeaders() *PendingHeaders {
 	return m.pendingHeaders
